@@ -114,6 +114,12 @@ theorem c06_merge {n : Nat} {a : Bool} {s : State} (h : Reachable n a s) {i j : 
         exact ⟨by rw [V]; exact M.2.1, by rw [V]; exact M.2.2.1, fun k h1 h2 => by rw [V]; exact M.2.2.2.1 k h1 h2⟩
       · intro _; exact ⟨M.2.1, M.2.2.1, M.2.2.2.1⟩
 
+/-- merging a suspend point into itself (`sp << std::move(sp)`, `sp = std::move(sp)`) changes nothing (repaired
+code; see `c06_asis_self_assign_loses_handles` for the pinned commit) -/
+theorem c06_self_merge_noop (s : State) (i : Nat) :
+    (step s (Op.merge i i)).1 = s ∧ (step s (Op.assign i i)).1 = s := by
+  refine ⟨?_, ?_⟩ <;> simp only [step] <;> split <;> simp
+
 /-- move construction (same type, sliced to the base, or into a typed suspend point with a value): the new
 object holds exactly the source's handles in the same order, the moved-from source holds nothing -/
 theorem c06_move {n : Nat} {a : Bool} {s : State} (h : Reachable n a s) {i j : Nat} {oj : Obj}
@@ -364,6 +370,17 @@ theorem c06_value {n : Nat} {a : Bool} {s : State} (h : Reachable n a s) (op : O
       rw [e1] at hk'; cases hk'
       exact ⟨by rw [e2, hti], Or.inr ⟨j, oj, rfl, hj, htj, e3⟩⟩
     · have := hothers k ek o o' hk hk'; exact ⟨this.1, Or.inl this.2⟩
+
+/-! ## the pinned commit violated the property -/
+
+/-- The unrepaired `operator<<` / move-assignment applied to the object itself (`sp = std::move(sp)` with two
+handles): the loop re-adds the object's own handles (spilling to the heap on the way), then resets the count —
+both coroutines are dropped (held nowhere, never resumed) and the block allocated on the way is leaked.
+Replayed on the headers in corpus/c06_selfassign.txt; repaired by the `fix:` commit (self-merge is a no-op). -/
+theorem c06_asis_self_assign_loses_handles :
+    let s := runAsIs (init 1 false) [Op.ctorH 0 1, Op.addH 0 2, Op.assign 0 0]
+    s.given = [1, 2] ∧ handles s 0 = [] ∧ resumed s = [] ∧ s.queue = [] ∧ s.popped = []
+    ∧ s.live = [1] ∧ s.trace = [Ev.alloc 6] := by decide
 
 /-! ## non-vacuity: the hypotheses are satisfiable by non-trivial reachable states -/
 
